@@ -106,7 +106,8 @@ def usesE : RExpr → List Nat
   | .task body => (usesE body).filter fun i => !(localsE body).contains i
 def usesS : RStmt → List Nat
   | .let_ _ e => usesE e
-  | .assignVar _ e => usesE e                  -- the assigned variable itself is not collected (D20)
+  | .assignVar _ e => usesE e                  -- the assigned variable itself is not collected (the checker
+                                               -- rejects assignment to a captured variable: `checkerAssign*`)
   | .assignPlace _ t e => usesE t ++ usesE e
   | .expr e => usesE e
   | .while_ c body => usesE c ++ usesSs body
@@ -238,6 +239,40 @@ def checkerLoopsEs (inLoop : Bool) : RExprs → Bool
 def checkerLoopsArms (inLoop : Bool) : RArms → Bool
   | .nil => true
   | .cons _ body r => checkerLoopsE inLoop body && checkerLoopsArms inLoop r
+end
+
+/- checker (typecheck.rs, fdfd074): inside a lambda or task, `x = e` / `x op= e` is rejected ("Can't modify captured
+   variable") unless `x` is bound inside the innermost enclosing lambda/task, i.e. is one of its parameters or locals.
+   `own = none`: not inside a lambda or task (a named function or `<main>`: no restriction). -/
+mutual
+def checkerAssignE (own : Option (List Nat)) : RExpr → Bool
+  | .lit => true
+  | .var _ => true
+  | .op es => checkerAssignEs own es
+  | .ite c t f => checkerAssignE own c && checkerAssignE own t && checkerAssignE own f
+  | .block ss => checkerAssignSs own ss
+  | .matchE s arms => checkerAssignE own s && checkerAssignArms own arms
+  | .lam ps body => checkerAssignE (some (ps ++ localsE body)) body
+  | .task body => checkerAssignE (some (localsE body)) body
+def checkerAssignS (own : Option (List Nat)) : RStmt → Bool
+  | .let_ _ e => checkerAssignE own e
+  | .assignVar id e => (match own with | none => true | some o => o.contains id) && checkerAssignE own e
+  | .assignPlace _ t e => checkerAssignE own t && checkerAssignE own e
+  | .expr e => checkerAssignE own e
+  | .while_ c body => checkerAssignE own c && checkerAssignSs own body
+  | .for_ _ it body => checkerAssignE own it && checkerAssignSs own body
+  | .break_ => true
+  | .continue_ => true
+  | .ret e => checkerAssignE own e
+def checkerAssignSs (own : Option (List Nat)) : RStmts → Bool
+  | .nil => true
+  | .cons s r => checkerAssignS own s && checkerAssignSs own r
+def checkerAssignEs (own : Option (List Nat)) : RExprs → Bool
+  | .nil => true
+  | .cons e r => checkerAssignE own e && checkerAssignEs own r
+def checkerAssignArms (own : Option (List Nat)) : RArms → Bool
+  | .nil => true
+  | .cons _ body r => checkerAssignE own body && checkerAssignArms own r
 end
 
 /- the code generator does not panic on `loop_stack.last().unwrap()`: `depth` = length of its loop stack.
